@@ -14,7 +14,7 @@ fn main() {
             e2::install_silent_panic_hook();
             let opts: world::options::Opts = args.get(4).map(|j| serde_json::from_str(j).expect("opts json")).unwrap_or_default();
             let q = std::fs::read_to_string(&args[3]).expect("query");
-            let out = e2::run_job_here(&e2::Job { schema_path: args[2].clone(), query: e2::QuerySrc::Text(q), opts });
+            let out = e2::run_job_here(&e2::Job { schema_path: args[2].clone(), query: e2::QuerySrc::Text(q), opts, cwd: None });
             match out {
                 e2::Outcome::Ok(t) => println!("{}", t),
                 other => println!("{:?}", other),
